@@ -137,6 +137,64 @@ theorem tempo_positions (mode : Nat) (a : Anacrusis) (minPpq vel : Nat) (parts :
   rw [hM, List.append_nil, List.filter_eq_self.mpr (C04E.trackTempos_kind _ tr).1]
   exact List.Perm.refl _
 
+/-- Several tempo marks on one tick: the first track holds exactly one tempo event on that tick, with the value of
+    the mark read last (part after part, mark after mark: `C04D.lastMark` of `C04D.allMarks`). -/
+theorem tempo_last_wins (mode : Nat) (a : Anacrusis) (minPpq vel : Nat) (parts : List PartIn) (ex : Exported)
+    (h : saveScoreMidi mode a minPpq vel parts = some ex) :
+    ∃ o, origin a (parts.map (·.base)) = some o ∧ ∃ h0 : 0 < ex.tracks.length,
+      ∀ t v, C04D.lastMark (C04D.allMarks (fun x t => tick ex.ppq x.base o t) parts) t = some v →
+        (t, Msg.tempo v) ∈ ex.tracks[0] ∧ ∀ v', (t, Msg.tempo v') ∈ ex.tracks[0] → v' = v := by
+  obtain ⟨o, ho, hperm, hnd, _, _⟩ := tempo_positions mode a minPpq vel parts ex h
+  obtain ⟨o', metas, tcs, n, ho', hm, htc, hn, hex⟩ := C04E.save_inv mode a minPpq vel parts ex h
+  rw [ho] at ho'
+  cases ho'
+  have h0 : 0 < ex.tracks.length := by
+    rw [hex]
+    simp only [Option.map_eq_some_iff] at hn
+    obtain ⟨m, _, rfl⟩ := hn
+    simp
+  refine ⟨o, ho, h0, ?_⟩
+  intro t v hlast
+  have hl := C04D.exportTempos_last (fun x t => tick ex.ppq x.base o t) parts t v hlast
+  have hmem := C04E.lookup_mem _ _ _ hl
+  have hp := hperm 0 h0
+  simp only [trackTempo, ↓reduceIte] at hp
+  have key : ∀ w, (t, Msg.tempo w) ∈ ex.tracks[0] ↔ (t, w) ∈ exportTempos (fun x t => tick ex.ppq x.base o t) parts := by
+    intro w
+    have := hp.mem_iff (a := (t, Msg.tempo w))
+    simp only [List.mem_filter, C04D.isTempo, and_true, List.mem_map] at this
+    rw [this]
+    constructor
+    · rintro ⟨e, he, hx⟩
+      simp only [Prod.mk.injEq, Msg.tempo.injEq] at hx
+      obtain ⟨rfl, rfl⟩ := hx
+      exact he
+    · intro he
+      exact ⟨(t, w), he, rfl⟩
+  refine ⟨(key v).mpr hmem, ?_⟩
+  intro v' hv'
+  have hmem' := (key v').mp hv'
+  -- one entry per tick
+  have : ∀ (d : List (Int × Nat)), (d.map (·.1)).Nodup → (t, v) ∈ d → (t, v') ∈ d → v' = v := by
+    intro d
+    induction d with
+    | nil => intro _ h1; simp at h1
+    | cons e rest ih =>
+      intro hnd' h1 h2
+      simp only [List.map_cons, List.nodup_cons] at hnd'
+      rcases List.mem_cons.mp h1 with a1 | a1 <;> rcases List.mem_cons.mp h2 with a2 | a2
+      · rw [← a1] at a2
+        exact (Prod.mk.inj a2).2
+      · rw [← a1] at hnd'
+        exact absurd (show t ∈ rest.map (·.1) from List.mem_map.mpr ⟨(t, v'), a2, rfl⟩) hnd'.1
+      · rw [← a2] at hnd'
+        exact absurd (show t ∈ rest.map (·.1) from List.mem_map.mpr ⟨(t, v), a1, rfl⟩) hnd'.1
+      · exact ih hnd'.2 a1 a2
+  exact this _ hnd hmem hmem'
+
+/-- non-vacuity: two marks on tick 6 (the second wins), one on tick 0 -/
+example : C04D.lastMark [(0, 500000), (6, 400000), (6, 300000)] 6 = some 300000 := by decide +kernel
+
 /-- `pad_bar` moves every tick of the file by one constant: with origins `oS` (`shift`) and `oP` (`pad_bar`),
     the exact tick image of every position of every part under `pad_bar` is its image under `shift` plus
     `ppq * (oS - oP)` — the bar of the first time signature minus the pickup, in ticks.  When both images are
